@@ -53,6 +53,26 @@ def execute_run(desc: dict, deviations: dict[int, str] | None = None, *, want: t
     # collection timing depends on allocation history of the worker process, and Hypothesis' gc callback
     # reads the (virtual) clock: keep the collector out of the run. Runs are short; the child is _exit'ed.
     gc.disable()
+    # private working directory per run: anything the SUT persists relative to cwd (e.g. ./.hypothesis) is
+    # run-local history, created empty and removed with the run
+    import shutil
+    import tempfile
+
+    workdir = tempfile.mkdtemp(prefix="simrun-")
+    os.chdir(workdir)
+    try:
+        return _execute_run(desc, deviations, want)
+    finally:
+        os.chdir("/")
+        shutil.rmtree(workdir, ignore_errors=True)
+
+
+def _execute_run(desc: dict, deviations, want: tuple) -> dict:
+    from . import profiles
+    from . import workload as W
+    from .peer import Peer
+    from .universe import Universe
+
     result: dict[str, Any] = {"run_seed": desc.get("run_seed"), "property": desc.get("property"), "status": "ok"}
     fatal: dict[str, Any] = {}
 
@@ -144,6 +164,12 @@ def execute_run(desc: dict, deviations: dict[int, str] | None = None, *, want: t
         result["events"] = ev_lines
     if "wire" in want:
         result["wire"] = wire_lines
+    if "wire_full" in want:
+        result["wire_full"] = [
+            [r.thread, r.phase, r.request.method, r.request.url, r.request.headers, r.request.body.decode("latin-1")[:300],
+             r.response.status if r.response else None, r.tag]
+            for r in ctx.netlog
+        ]
     if "trace" in want:
         result["loop_traceback"] = ctx.loop_traceback
         result["stdout"] = ctx.stdout[-20000:]
@@ -151,6 +177,8 @@ def execute_run(desc: dict, deviations: dict[int, str] | None = None, *, want: t
     extra = getattr(profile, "export", None)
     if extra is not None:
         result["export"] = extra(ctx)
+        if isinstance(result["export"], dict) and "fetch_digest" in result["export"]:
+            result["export_digest"] = result["export"]["fetch_digest"]
     return result
 
 
